@@ -861,3 +861,18 @@ pub fn s_hist_two_pending(age_s: u64) -> WCfg {
     c.fail_codes = vec![203, 204];
     c
 }
+
+
+/// Two payments for different hashes in flight at the same time (preimages must never cross).
+pub fn s_two_hashes() -> WCfg {
+    let mut c = WCfg::base("S-two/concurrent");
+    let ia = c.add_invoice(&InvoiceSpec::fixed(1, 1_000_000));
+    let ib = c.add_invoice(&InvoiceSpec::fixed(2, 1_000_000));
+    c.add_htlc("a", ia, 1_005_000, 1_005_000);
+    c.add_htlc("b", ib, 1_005_000, 1_005_000);
+    c.max_parts = 1;
+    c.max_crashes = 1;
+    c.crash_lose_responses = true;
+    c.write_faults = true;
+    c
+}
